@@ -163,7 +163,7 @@ Proof.
 Qed.
 
 (* without a stream of Type ObjStm the pass does nothing *)
-Lemma objstm_pass_none P m : has_objstm m = false -> objstm_pass P m = m.
+Lemma objstm_pass_none P xr m : has_objstm m = false -> objstm_pass P xr m = m.
 Proof. intro H. unfold objstm_pass. rewrite (objstm_scan_none P m H). reflexivity. Qed.
 
 Lemma objstm_scan_keys P m : map fst (fst (objstm_scan P m)) = map fst m.
@@ -191,12 +191,125 @@ Qed.
 (* what decrypt_raw leaves in Document.objects: the object-stream pass runs while the encryption dictionary
    (object [id], content [e]) is still in the map -- a member of an object stream that carries this number is
    therefore not added --, then the dictionary object is removed *)
-Definition opened_objects (P : prims) (m : objmap) (id : oid) (e : dict) : objmap :=
-  remove (objstm_pass P (insert m id (ODict e))) id.
+Definition opened_objects (P : prims) (xr : N -> option N) (m : objmap) (id : oid) (e : dict) : objmap :=
+  remove (objstm_pass P xr (insert m id (ODict e))) id.
 
-Lemma opened_objects_none P m id e : ~ In id (map fst m) -> has_objstm m = false -> opened_objects P m id e = m.
+Lemma opened_objects_none P xr m id e : ~ In id (map fst m) -> has_objstm m = false -> opened_objects P xr m id e = m.
 Proof.
   intros Hf Ho. unfold opened_objects. rewrite objstm_pass_none by (rewrite has_objstm_insert_fresh; assumption).
+  apply remove_insert_fresh. exact Hf.
+Qed.
+
+(* ---------- a document whose object streams are already expanded (what the loader leaves) ---------- *)
+(* every stream of Type ObjStm is one Stream::decompress has nothing to do on (the loader decompressed it in place:
+   no Filter, decompress = Err), and every member it holds is accounted for in the object map the way the reader's
+   own merge leaves it: a member the cross-reference table places in this stream is there under its id, of any other
+   member the NUMBER is taken *)
+Definition expanded (P : prims) (xr : N -> option N) (m : objmap) : Prop :=
+  forall i d c, In (i, OStream d c) m -> has_type d N_ObjStm = true ->
+    p_decompress P d c = None /\
+    forall objs, ObjStm.objstm_plain d c = ObjStm.OsOk objs -> forall e : oid * obj, In e objs ->
+      (xref_names xr (fst i) e = true -> lookup m (fst e) <> None) /\
+      (xref_names xr (fst i) e = false -> has_number m (fst (fst e)) = true).
+
+Lemma fold_or_insert_present (found : list (oid * obj)) : forall m, (forall e : oid * obj, In e found -> lookup m (fst e) <> None) ->
+  fold_left or_insert found m = m.
+Proof.
+  induction found as [|e found IH]; intros m H; [reflexivity|]. cbn [fold_left].
+  assert (E : or_insert m e = m).
+  { unfold or_insert. destruct (lookup m (fst e)) eqn:L; [reflexivity|]. exfalso. apply (H e); [left; reflexivity|exact L]. }
+  rewrite E. apply IH. intros e' He'. apply H. right. exact He'.
+Qed.
+
+Lemma fold_add_rest_present (found : list (oid * obj)) : forall m, (forall e : oid * obj, In e found -> has_number m (fst (fst e)) = true) ->
+  fold_left add_rest found m = m.
+Proof.
+  induction found as [|e found IH]; intros m H; [reflexivity|]. cbn [fold_left].
+  assert (E : add_rest m e = m) by (unfold add_rest; rewrite (H e (or_introl eq_refl)); reflexivity).
+  rewrite E. apply IH. intros e' He'. apply H. right. exact He'.
+Qed.
+
+Definition block_ok (xr : N -> option N) (m0 : objmap) (b : N * objmap) : Prop :=
+  forall e : oid * obj, In e (snd b) ->
+    (xref_names xr (fst b) e = true -> lookup m0 (fst e) <> None) /\
+    (xref_names xr (fst b) e = false -> has_number m0 (fst (fst e)) = true).
+
+Lemma objstm_scan_expanded P xr m0 m : (forall x, In x m -> In x m0) -> expanded P xr m0 ->
+  fst (objstm_scan P m) = m /\ Forall (block_ok xr m0) (snd (objstm_scan P m)).
+Proof.
+  intros Hin Hex. induction m as [|[i o] m IH]; [split; [reflexivity|constructor]|].
+  destruct IH as [IH1 IH2]; [intros x Hx; apply Hin; right; exact Hx|].
+  cbn [objstm_scan].
+  destruct o as [|b|z|r|n|s h|l|d|d c|i0 g]; cbn [fst snd]; try (rewrite IH1; split; [reflexivity|exact IH2]).
+  destruct (has_type d N_ObjStm) eqn:T; cbn [fst snd]; [|rewrite IH1; split; [reflexivity|exact IH2]].
+  destruct (Hex i d c (Hin _ (or_introl eq_refl)) T) as [Hd Hm].
+  unfold ObjStm.objstm_new. rewrite Hd. cbn [fst snd]. rewrite IH1. split; [reflexivity|].
+  destruct (ObjStm.objstm_plain d c) as [objs|er] eqn:Ep; [|exact IH2].
+  constructor; [|exact IH2]. intros e He. cbn [fst snd] in *. exact (Hm objs eq_refl e He).
+Qed.
+
+Lemma objstm_merge_present xr blocks m : Forall (block_ok xr m) blocks -> objstm_merge xr blocks m = m.
+Proof.
+  intro H. unfold objstm_merge.
+  rewrite (fold_or_insert_present _ m).
+  - apply fold_add_rest_present. intros e He. apply in_flat_map in He. destruct He as (b & Hb & He).
+    apply filter_In in He. destruct He as [He Hn]. apply negb_true_iff in Hn.
+    rewrite Forall_forall in H. exact (proj2 (H b Hb e He) Hn).
+  - intros e He. apply in_flat_map in He. destruct He as (b & Hb & He).
+    apply filter_In in He. destruct He as [He Hn].
+    rewrite Forall_forall in H. exact (proj1 (H b Hb e He) Hn).
+Qed.
+
+(* on such a document the object-stream pass changes nothing *)
+Lemma objstm_pass_expanded P xr m : expanded P xr m -> objstm_pass P xr m = m.
+Proof.
+  intro Hex. destruct (objstm_scan_expanded P xr m m (fun x H => H) Hex) as [H1 H2].
+  unfold objstm_pass. rewrite H1. apply objstm_merge_present. exact H2.
+Qed.
+
+Lemma in_insert m id v x : In x (insert m id v) -> x = (id, v) \/ In x m.
+Proof.
+  induction m as [|[i o] m IH]; cbn [insert]; intro H.
+  - destruct H as [H|[]]. left. symmetry. exact H.
+  - destruct (oid_eqb i id) eqn:E.
+    + destruct H as [H|H]; [left; apply oid_eqb_eq in E; subst i; symmetry; exact H|right; right; exact H].
+    + destruct (oid_ltb id i).
+      * destruct H as [H|H]; [left; symmetry; exact H|right; exact H].
+      * destruct H as [H|H]; [right; left; exact H|]. destruct (IH H) as [H'|H']; [left; exact H'|right; right; exact H'].
+Qed.
+
+Lemma lookup_insert_mono m id v k : lookup m k <> None -> lookup (insert m id v) k <> None.
+Proof.
+  induction m as [|[i o] m IH]; cbn [insert lookup]; intro H; [contradiction|].
+  destruct (oid_eqb i id) eqn:E.
+  - cbn [lookup]. destruct (oid_eqb i k); [discriminate|exact H].
+  - destruct (oid_ltb id i); cbn [lookup].
+    + destruct (oid_eqb id k); [discriminate|]. exact H.
+    + destruct (oid_eqb i k); [discriminate|]. exact (IH H).
+Qed.
+
+Lemma has_number_insert_mono m id v n : has_number m n = true -> has_number (insert m id v) n = true.
+Proof.
+  unfold has_number. induction m as [|[i o] m IH]; cbn [insert existsb fst]; intro H; [discriminate|].
+  destruct (oid_eqb i id) eqn:E.
+  - exact H.
+  - destruct (oid_ltb id i); cbn [existsb fst].
+    + rewrite H. apply orb_true_r.
+    + apply orb_true_iff in H. destruct H as [H|H]; [rewrite H; reflexivity|rewrite (IH H); apply orb_true_r].
+Qed.
+
+Lemma expanded_insert_dict P xr m id e : expanded P xr m -> expanded P xr (insert m id (ODict e)).
+Proof.
+  intros Hex i d c Hin T. apply in_insert in Hin. destruct Hin as [Hin|Hin]; [discriminate Hin|].
+  destruct (Hex i d c Hin T) as [Hd Hm]. split; [exact Hd|].
+  intros objs Ho x Hx. destruct (Hm objs Ho x Hx) as [A B]. split.
+  - intro Hn. apply lookup_insert_mono. exact (A Hn).
+  - intro Hn. apply has_number_insert_mono. exact (B Hn).
+Qed.
+
+Lemma opened_objects_expanded P xr m id e : ~ In id (map fst m) -> expanded P xr m -> opened_objects P xr m id e = m.
+Proof.
+  intros Hf Hex. unfold opened_objects. rewrite objstm_pass_expanded by (apply expanded_insert_dict; exact Hex).
   apply remove_insert_fresh. exact Hf.
 Qed.
 
@@ -204,16 +317,16 @@ Qed.
 (* ids of the document lie at or below max_id: the invariant add_object relies on *)
 Definition max_id_ok (d : doc) : Prop := forall id, In id (map fst (d_objects d)) -> fst id <= d_max_id d.
 
-Theorem doc_rt_gen P st d ivs d1 pw st' :
+Theorem doc_rt_gen P xr st d ivs d1 pw st' :
   aes_ok P ->
   max_id_ok d ->
   dict_get (d_trailer d) K_Encrypt = None ->
   doc_encrypt P st d ivs = DOk d1 tt ->
   authenticate_raw_password P d1 pw = Ok tt ->
   decode P d1 pw = Ok st' -> st_equiv st st' ->
-  doc_decrypt_raw P d1 pw =
+  doc_decrypt_raw_x P xr d1 pw =
     DOk {| d_version := d_version d; d_binary_mark := d_binary_mark d; d_trailer := d_trailer d;
-           d_objects := opened_objects P (norm_objs st (d_objects d)) (d_max_id d + 1, 0) (encode st);
+           d_objects := opened_objects P xr (norm_objs st (d_objects d)) (d_max_id d + 1, 0) (encode st);
            d_max_id := d_max_id d + 1 |} st'.
 Proof.
   intros HP Hmax Htr He Ha Hd Heq.
@@ -228,7 +341,7 @@ Proof.
   { intro Hin. apply Hmax in Hin. subst id. cbn [fst] in Hin. lia. }
   assert (Hkeys : map fst m' = map fst (d_objects d)) by (eapply encrypt_objects_keys; exact Eo).
   assert (Hfresh' : ~ In id (map fst m')) by (rewrite Hkeys; exact Hfresh).
-  unfold doc_decrypt_raw. unfold is_encrypted. rewrite get_encrypted_after. cbn [negb].
+  unfold doc_decrypt_raw_x. unfold is_encrypted. rewrite get_encrypted_after. cbn [negb].
   rewrite Ha. cbn [d_trailer d_objects d_version d_binary_mark d_max_id].
   rewrite dget_set_same. rewrite Hd.
   change (fst id, snd id) with id.
@@ -252,7 +365,7 @@ Theorem doc_rt P st d ivs d1 pw st' :
            d_objects := norm_objs st (d_objects d); d_max_id := d_max_id d + 1 |} st'.
 Proof.
   intros HP Hmax Htr Hos He Ha Hd Heq.
-  rewrite (doc_rt_gen P st d ivs d1 pw st' HP Hmax Htr He Ha Hd Heq).
+  unfold doc_decrypt_raw. rewrite (doc_rt_gen P (fun _ => None) st d ivs d1 pw st' HP Hmax Htr He Ha Hd Heq).
   rewrite opened_objects_none; [reflexivity| |rewrite has_objstm_norm; exact Hos].
   unfold norm_objs. rewrite map_map. cbn [fst]. intro Hin. apply Hmax in Hin. cbn [fst] in Hin. lia.
 Qed.
@@ -267,11 +380,15 @@ Proof.
 Qed.
 
 (* ---------- frame: a password that does not authenticate leaves the document unchanged ---------- *)
-Theorem reject_leaves_unchanged P d pw e :
-  authenticate_raw_password P d pw = Err e -> doc_decrypt_raw P d pw = DErr e.
+Theorem reject_leaves_unchanged_x P xr d pw e :
+  authenticate_raw_password P d pw = Err e -> doc_decrypt_raw_x P xr d pw = DErr e.
 Proof.
-  intro H. unfold doc_decrypt_raw.
+  intro H. unfold doc_decrypt_raw_x.
   destruct (negb (is_encrypted d)) eqn:E.
   - unfold authenticate_raw_password in H. rewrite E in H. inversion H; subst. reflexivity.
   - rewrite H. reflexivity.
 Qed.
+
+Theorem reject_leaves_unchanged P d pw e :
+  authenticate_raw_password P d pw = Err e -> doc_decrypt_raw P d pw = DErr e.
+Proof. apply reject_leaves_unchanged_x. Qed.
